@@ -33,8 +33,9 @@ def _eq(v, s, neg=False):
     return ["not", a] if neg else a
 
 
-def template(rnd, cg, lits, gname=None):
-    """returns (name, formula)"""
+def template(rnd, cg, lits, gname=None, prefer=None):
+    """returns (name, formula); `prefer`: a nonterminal (the requested start symbol) that quantifiers with match
+    expressions should range over with high probability (the quantified type is then the tree's root)"""
     R = rt.reach(cg)
     num = sorted(fml.numeral_nts(cg))
     nts = [k for k in cg if k != "<start>"]
@@ -50,6 +51,8 @@ def template(rnd, cg, lits, gname=None):
         kinds += ["toint", "toint", "toint_arith", "toint_pair"]
     if gname in ("lang", "blk"):
         kinds += ["defuse", "defuse"]
+    if prefer:
+        kinds += ["mexpr_children"] * 6
     k = pick(rnd, kinds)
     T = pick(rnd, nts)
     v = "v1"
@@ -131,7 +134,7 @@ def template(rnd, cg, lits, gname=None):
     if k == "mexpr_children":
         fg = fml.FGen(rnd, cg, lits, dict(mexpr=1.0, opt=0.3))
         for _ in range(6):
-            T = pick(rnd, inner or nts)
+            T = prefer if prefer and prefer in cg and chance(rnd, 0.75) else pick(rnd, inner or nts)
             mx, binds = fg.mexpr_for(T)
             if mx and binds:
                 b = pick(rnd, binds)
